@@ -59,7 +59,10 @@ class MMod:
         self.expect_closed_by_manager = False
         self.removed_at = None
         self.fault = None  # pending targeted write fault
-        self.maybe_removed = False  # doomed: write-side discovery may have happened (observed)
+        self.maybe_removed = False
+        self.gone_writes = 0
+        self.fault_left = None  # bytes the manager can still write before the injected failure
+        self.monitor = False
 
     def subscribed(self, t):
         return self.A or t in self.S
@@ -101,6 +104,7 @@ class World:
         self.interval_counts = Counter()  # C18: forwarded types since last TIMING
         self.traffic_counts = Counter()
         self.step_events: list = []
+        self.frames_per_conn: Dict[int, dict] = {}
 
     # ------------------------------------------------------------------------------------------
     def viol(self, key, what):
@@ -179,7 +183,7 @@ class World:
         fr = P.build(op["type"], payload, src_mod=src, src_host=op.get("sh", 0), dest_mod=op["dm"],
                      dest_host=op["dh"], send_time=float(seq), msg_count=op.get("mc", seq & 0x7FFF),
                      reserved=op.get("ver", 0), timecode=self.timecode)
-        unit = dict(kind="pub", seq=seq, type=op["type"], dm=op["dm"], dh=op["dh"], src=src,
+        unit = dict(kind="pub", c=m.idx, seq=seq, type=op["type"], dm=op["dm"], dh=op["dh"], src=src,
                     sh=op.get("sh", 0), size=op["size"], payload=payload)
         self.pubs[seq] = unit
         self._send(m, fr, unit)
@@ -225,6 +229,7 @@ class World:
     def op_fault(self, op):
         m = self._mod(op)
         m.fault = dict(after=op["after"], exc=op.get("exc", "epipe"))
+        m.fault_left = op["after"]
         s = m.conn.m
         s.fail_after = op["after"]
         s.fail_exc = BrokenPipeError if op.get("exc", "epipe") == "epipe" else ConnectionResetError
@@ -249,6 +254,14 @@ class World:
         self.expected_acks = {m.idx: 0 for m in self.mods}
         self.expected_ackcopies = {m.idx: [] for m in self.mods}
         self.step_events = []
+        self.step_failed = []
+        self.step_failures = []
+        self.step_msgs = set()
+        self.step_failmods = []
+        self.step_logger_waits = 0
+        waits_before = self.sim.blocking_waits
+        self.step_closed = []
+        self.expected_mgr = {m.idx: [] for m in self.mods}
         served = [r for r in ready if r != "L"]
         if ready:
             self.W = set()
@@ -277,6 +290,17 @@ class World:
                 continue  # removed earlier in this round: the manager skips it
             unit = m.queue.popleft()
             self._model_unit(m, unit)
+        nacks = sum(1 for e in self.step_events if e[0] == "ack")
+        if nacks >= 2:
+            self.stats["rounds-multi-ack"] += 1
+            self.shapes.add(("ack-round", min(nacks, 5), min(sum(1 for x in self.mods if x.tracked and x.logger), 3),
+                             any(e[0] == "connect-ignored" for e in self.step_events),
+                             any(e[0] == "removed" for e in self.step_events)))
+        if "failed" in self.oracles and self.step_logger_waits and self.sim.blocking_waits == waits_before:
+            self.viol("failed/logger-not-waited-for", f"round {self.rounds}: {self.step_logger_waits} deliveries to logger modules that "
+                      f"were not in the writable snapshot, but the manager never waited for a logger connection to become writable")
+        if self.step_logger_waits:
+            self.stats["logger-waits"] += self.step_logger_waits
         self._observe_all()
         self.check_alive()
 
@@ -288,6 +312,8 @@ class World:
             self._model_connect(m, u)
         elif k == "sub":
             t = u["type"]
+            before = (m.A, frozenset(m.S))
+            self._sub_before = before
             if u["sk"] in ("SUBSCRIBE", "RESUME"):
                 if t == P.ALL_MESSAGE_TYPES:
                     m.A = True
@@ -300,14 +326,19 @@ class World:
                     m.S = set()
                 elif not m.A:
                     m.S.discard(t)
+            if (m.A, frozenset(m.S)) == before:
+                self.stats["sub-noop"] += 1
+                self.shapes.add(("noop", u["sk"], t == P.ALL_MESSAGE_TYPES, before[0], min(len(before[1]), 2)))
             self._ack_event(m)
             self.stats["sub"] += 1
         elif k == "pub":
             self._model_forward(m, u)
         elif k == "ready":
             m.pid = u["pid"]
+            self._model_client_info(m)
         elif k == "setname":
             m.name = u["name"].split(b"\0")[0]
+            self._model_client_info(m)
         elif k == "disconnect":
             self._model_remove(m, "disconnect")
         elif k == "eof":
@@ -323,23 +354,118 @@ class World:
         if m.conn.manager_closed:
             self._model_remove(m, "hostile")
 
+    # ---- manager-side write attempts -------------------------------------------------------
+    def _doomed(self, x: MMod) -> bool:
+        return bool(x.client_closed) and x.gone_mode != "silent"
+
+    def _lenient(self, x: MMod) -> bool:
+        """A module whose first failing write cannot be predicted exactly (it receives
+        manager-originated traffic the model does not enumerate)."""
+        return x.logger or x.A or bool(x.S & self.MGR_TYPES)
+
+    MGR_TYPES = frozenset({P.MT_FAILED_MESSAGE, P.MT_CLIENT_INFO, P.MT_CLIENT_CLOSED, P.MT_ACTIVE_CLIENTS,
+                           P.MT_MESSAGE_TRAFFIC, P.MT_TIMING_MESSAGE, 40, 41, 42, 43, 44, 45})
+
+    def _attempt(self, x: MMod, mtype: int, size: int, about: dict) -> bool:
+        """The manager writes one frame (header, then payload) to tracked module x.
+        Returns True when the frame went out completely; on a write failure x is removed and the
+        failure notice bookkeeping is done."""
+        hs = self.sim.hsize
+        fail = False
+        # the simulated socket applies an injected fault first, then the peer-gone behaviour,
+        # to each of the two writes (header, payload; a zero-length write does nothing)
+        for part in (hs, size):
+            if part == 0 or fail:
+                continue
+            if x.fault_left is not None:
+                if part > x.fault_left:
+                    fail = True
+                    continue
+                x.fault_left -= part
+            if self._doomed(x):
+                if x.gone_mode in ("epipe", "reset"):
+                    fail = True
+                else:  # first-ok: the first write after the peer went away still succeeds
+                    if x.gone_writes >= 1:
+                        fail = True
+                    else:
+                        x.gone_writes += 1
+        if not fail:
+            return True
+        x.fault_left = None
+        self._note_failmod(x)
+        self.stats["write-failure"] += 1
+        self.step_events.append(("write-failed", x.idx, mtype))
+        self.step_failures.append(dict(sub=x.idx, sub_id=x.mod_id, type=mtype, about=about))
+        self._model_remove(x, "write-failure")
+        if mtype not in (P.MT_FAILED_MESSAGE, 40, 41, 42, 43, 44, 45):
+            self._model_failed_notice(x, mtype, about)
+        return False
+
+    def _note_failmod(self, x: MMod):
+        self.step_failmods.append(dict(id=x.mod_id, A=x.A or x.logger, S=set(x.S)))
+
+    def _model_failed_notice(self, x: MMod, mtype: int, about: dict):
+        """FAILED_MESSAGE naming x about message `about` is forwarded to the FAILED_MESSAGE subscribers."""
+        rec = dict(sub=x.idx, sub_id=x.mod_id, type=mtype, src=about.get("src", 0), dm=about.get("dm", 0),
+                   seq=about.get("seq"), round=self.rounds, required=about.get("required", False))
+        self._note_failmod(x)
+        self.step_failed.append(rec)
+        self._model_mgr_forward(P.MT_FAILED_MESSAGE, 64, dict(kind="failed", **rec))
+
+    def _model_mgr_forward(self, mtype: int, size: int, about: dict):
+        """A manager-originated message (dest 0) goes through the same routing as client messages."""
+        self.interval_counts[mtype] += 1
+        self.step_msgs.add((mtype, 0, 0))
+        for x in list(self.mods):
+            if not x.tracked or not x.subscribed(mtype):
+                continue
+            able = x.idx in self.W or x.logger
+            if not able:
+                if mtype not in (P.MT_FAILED_MESSAGE, 40, 41, 42, 43, 44, 45):
+                    self._model_failed_notice(x, mtype, dict(src=0, dm=0))
+                continue
+            if x.idx not in self.W:
+                self.step_logger_waits += 1
+            if self._attempt(x, mtype, size, dict(src=0, dm=0)):
+                self.expected_mgr[x.idx].append((mtype, about))
+
     def _ack_event(self, m: MMod):
-        self.expected_acks[m.idx] += 1
         self.step_events.append(("ack", m.idx))
-        for lg in self.mods:
+        self.stats["ack-events"] += 1
+        self.step_msgs.add((P.MT_ACKNOWLEDGE, 0, m.mod_id))
+        if self._attempt(m, P.MT_ACKNOWLEDGE, 0, dict(src=0, dm=m.mod_id)):
+            self.expected_acks[m.idx] += 1
+        for lg in list(self.mods):
             if lg.tracked and lg.logger and lg.connected:
-                self.expected_ackcopies[lg.idx].append(m.idx)
+                if lg.idx not in self.W:
+                    self.step_logger_waits += 1
+                if self._attempt(lg, P.MT_ACKNOWLEDGE, 0, dict(src=0, dm=m.mod_id)):
+                    self.expected_ackcopies[lg.idx].append(m.idx)
 
     def _model_remove(self, m: MMod, why):
+        if not m.tracked:
+            return
         m.tracked = False
         m.removed_at = self.rounds
         self.W.discard(m.idx)
         self.step_events.append(("removed", m.idx, why))
-        self.expected_closed.append(dict(c=m.idx, mod_id=m.mod_id, name=m.name, logger=int(m.logger),
-                                         unique=int(m.unique), port=m.port, uid=m.uid, pid=m.pid, why=why,
-                                         round=self.rounds))
-        if why not in ("eof-fin", "eof-rst"):
+        rec = dict(c=m.idx, mod_id=m.mod_id, name=m.name, logger=int(m.logger), unique=int(m.unique),
+                   port=m.port, uid=m.uid, pid=m.pid, why=why, round=self.rounds)
+        self.expected_closed.append(rec)
+        self.step_closed.append(rec)
+        self.stats["departure-" + why] += 1
+        stage = ("logger" if m.logger else "all" if m.A else "mgr-subs" if (m.S & self.MGR_TYPES) else "subs" if m.S
+                 else "connected" if m.connected else "accepted")
+        m.departed_with = (set(m.S), m.A, why, stage)
+        if why not in ("eof-fin", "eof-rst", "write-failure"):
             m.expect_closed_by_manager = True
+        self._model_mgr_forward(P.MT_CLIENT_CLOSED, 80, dict(kind="closed", **rec))
+
+    def _model_client_info(self, m: MMod, optional=False):
+        self._model_mgr_forward(P.MT_CLIENT_INFO, 80, dict(kind="info", optional=optional, c=m.idx, mod_id=m.mod_id, name=m.name,
+                                                            logger=int(m.logger), unique=int(m.unique), port=m.port,
+                                                            pid=m.pid, uid=m.uid))
 
     def connect_verdict(self, m: MMod, u: dict) -> str:
         """must-accept / must-refuse / either, from the C06 statement."""
@@ -386,6 +512,8 @@ class World:
             self._model_remove(m, "refused")
             m.refused_req = u
             return
+        if closed and (self._doomed(m) or m.fault_left is not None):
+            closed = False  # accepted, then the acknowledgement could not be written: modelled below
         if "identity" in self.oracles and closed and verdict == "accept":
             self.viol("identity/wrongly-refused", f"connect request {self._u(u)} by conn {m.idx} must be accepted "
                       f"(live modules: {[x.brief() for x in self.mods if x.tracked and x is not m]}) but the manager closed the connection")
@@ -405,6 +533,9 @@ class World:
             m.mod_id = -(1000 + m.idx)  # placeholder until the ACK tells the assigned id
             m.id_pending = True
         self._ack_event(m)
+        # CLIENT_INFO follows the acknowledgement (when the acknowledgement could not be written the
+        # module is gone already; whether CLIENT_INFO is still published then is unspecified)
+        self._model_client_info(m, optional=not m.tracked)
 
     @staticmethod
     def _u(u):
@@ -413,16 +544,23 @@ class World:
     def _model_forward(self, src: MMod, u: dict):
         t, dm, dh = u["type"], u["dm"], u["dh"]
         self.interval_counts[t] += 1
-        self.traffic_counts[t] += 1
         self.stats["pub"] += 1
         if dm < 0 or dm > P.MAX_MODULES or dh < 0 or dh > P.MAX_HOSTS:
             self.stats["pub-out-of-range"] += 1
             u["recipients"] = []
             return
-        rec, failed, nonrec = [], [], 0
+        rec, failed, nonrec, wfail = [], [], 0, []
+        about = dict(src=u["src"], dm=dm, seq=u["seq"])
+        self.step_msgs.add((t, u["src"], dm))
         for x in self.mods:
+            dw = getattr(x, "departed_with", None)
+            if dw and not x.tracked and (dw[1] or t in dw[0]):
+                ndep = sum(1 for e in self.step_events if e[0] == "removed")
+                self.shapes.add(("departure", dw[2], dw[3], min(ndep, 3), x.removed_at == self.rounds))
+                self.stats["publish-after-departure"] += 1
+        for x in list(self.mods):
             if not x.tracked:
-                continue
+                continue  # may have been removed by a nested failure while this message is delivered
             if not x.subscribed(t):
                 nonrec += 1
                 continue
@@ -430,24 +568,35 @@ class World:
             able = x.idx in self.W or x.logger
             if not able:
                 failed.append(x.idx)
-                self.expected_failed.append(dict(seq=u["seq"], sub=x.idx, sub_id=x.mod_id, type=t, src=u["src"], dm=dm,
-                                                 passes=passes, round=self.rounds))
+                if t not in (P.MT_FAILED_MESSAGE, 40, 41, 42, 43, 44, 45):
+                    self._model_failed_notice(x, t, dict(about, required=passes))
                 continue
             if passes:
-                rec.append(x.idx)
-                self.expected_now[x.idx].append(u["seq"])
+                if x.idx not in self.W:
+                    self.step_logger_waits += 1
+                exact = not self._lenient(x)
+                if self._attempt(x, t, u["size"], dict(about, required=exact)):
+                    rec.append(x.idx)
+                    self.expected_now[x.idx].append(u["seq"])
+                else:
+                    wfail.append(x.idx)
             else:
                 nonrec += 1
         u["recipients"] = rec
         u["unwritable"] = failed
-        if rec and (nonrec or failed):
+        if rec and (nonrec or failed or wfail):
             self.stats["pub-nontrivial"] += 1
             self.shapes.add(("route", self._tclass(t), 0 if dm == 0 else 1, self._szclass(u["size"]),
-                             min(len(rec), 3), min(nonrec, 3), min(len(failed), 2),
+                             min(len(rec), 3), min(nonrec, 3), min(len(failed), 2), min(len(wfail), 2),
                              any(self.mods[i].logger for i in rec), any(self.mods[i].A for i in rec),
                              src.idx in rec))
         if failed:
             self.stats["pub-with-unwritable"] += 1
+        if wfail:
+            self.stats["pub-with-write-failure"] += 1
+        if (failed or wfail) and rec:
+            self.shapes.add(("undeliverable", min(len(failed), 2), min(len(wfail), 2), min(len(rec), 2),
+                             self._tclass(t), any(self.mods[i].logger for i in rec)))
 
     @staticmethod
     def _tclass(t):
@@ -477,6 +626,9 @@ class World:
             self.viol("framing/negative-size", f"conn {m.idx}: {e}")
         tagged = []
         for fr in frames:
+            fc = self.frames_per_conn.setdefault(m.idx, {"n": 0, "kinds": set()})
+            fc["n"] += 1
+            fc["kinds"].add(-1 if fr.src_mod_id != 0 else fr.msg_type)
             m.msg_count += 1
             if "framing" in self.oracles and fr.msg_count != m.msg_count:
                 self.viol("seqno/gap-or-repeat", f"conn {m.idx}: frame #{m.msg_count} on this connection "
@@ -560,16 +712,14 @@ class World:
                     self.viol("routing/duplicate" if dup and extra[0] in exp else "routing/extra",
                               f"conn {m.idx} {m.brief()} received publish {self._u(u)} "
                               f"{'twice' if dup else 'although it is not an eligible recipient'} in round {self.rounds} (W={sorted(self.W)})")
-        if "order" in self.oracles:
-            for m in self.mods:
-                if m.client_closed:
-                    continue
-                exp = self.expected_now.get(m.idx, [])
-                got = self.step_got.get(m.idx, [])
-                if exp != got and Counter(exp) == Counter(got):
-                    self.viol("order/reordered", f"conn {m.idx} received publishes {got} but they were processed in order {exp}")
         if "ack" in self.oracles:
             self._check_acks()
+        if "closed" in self.oracles:
+            self._check_closed()
+        if "failed" in self.oracles:
+            self._check_failed()
+        if "info" in self.oracles:
+            self._check_info()
         for m in self.mods:
             if m.expect_closed_by_manager and not m.client_closed and not m.conn.manager_closed:
                 self.viol("departure/not-closed", f"conn {m.idx} was refused or disconnected but the manager left its connection open")
@@ -600,6 +750,133 @@ class World:
                     self.viol("ack/logger-copies", f"logger conn {m.idx} (id {m.mod_id}): ACK copies {got} do not match the "
                               f"processing order of acknowledged requests {copies}")
 
+    def _check_closed(self):
+        for m in self.mods:
+            if m.client_closed or not m.accepted:
+                continue
+            exp = [a for (t, a) in self.expected_mgr.get(m.idx, []) if t == P.MT_CLIENT_CLOSED]
+            got = [P.parse_client_info(f.payload) for f in self.step_mgr.get(m.idx, []) if f.msg_type == P.MT_CLIENT_CLOSED]
+            eports = Counter(a["port"] for a in exp)
+            gports = Counter(g["port"] for g in got)
+            if eports != gports:
+                missing = list((eports - gports).elements())
+                extra = list((gports - eports).elements())
+                if missing:
+                    a = [x for x in exp if x["port"] == missing[0]][0]
+                    self.viol("closed/missing", f"conn {m.idx} (subscribed to CLIENT_CLOSED, writable) got no CLIENT_CLOSED for "
+                              f"departed conn {a['c']} ({a['why']}) in round {self.rounds}; events {self.step_events}")
+                dup = [p for p in extra if self._port_departed(p)]
+                self.viol("closed/duplicate" if dup else "closed/invented",
+                          f"conn {m.idx} received CLIENT_CLOSED for port {extra[0]} "
+                          f"{'again' if dup else 'which belongs to no departed connection'} in round {self.rounds}; events {self.step_events}")
+            for g in got:
+                a = [x for x in exp if x["port"] == g["port"]][0]
+                if a["why"] == "refused":
+                    continue  # what a refused request is described as is not specified
+                mm = self.mods[a["c"]]
+                bad = []
+                if a["mod_id"] >= 0 and g["mod_id"] != a["mod_id"]:
+                    bad.append(("mod_id", a["mod_id"], g["mod_id"]))
+                if g["name"] != a["name"]:
+                    bad.append(("name", a["name"], g["name"]))
+                if g["is_logger"] != a["logger"]:
+                    bad.append(("is_logger", a["logger"], g["is_logger"]))
+                if g["is_unique"] != a["unique"]:
+                    bad.append(("is_unique", a["unique"], g["is_unique"]))
+                if bad:
+                    self.viol("closed/wrong-description", f"CLIENT_CLOSED for conn {a['c']} does not describe it: {bad}")
+        # kernel-level consistency: a departed connection's socket is closed by the manager
+        for m in self.mods:
+            if m.accepted and not m.tracked and not m.conn.m.closed:
+                self.viol("closed/socket-left-open", f"conn {m.idx} departed ({[e for e in self.step_events if e[0] == 'removed']}) "
+                          f"but the manager still holds its socket open")
+            if m.accepted and m.tracked and m.conn.m.closed:
+                self.viol("closed/closed-unexpectedly", f"the manager closed conn {m.idx} {m.brief()} which has not departed; events {self.step_events}")
+
+    def _port_departed(self, port):
+        return any(a["port"] == port for a in self.expected_closed)
+
+    def _check_failed(self):
+        for m in self.mods:
+            if m.client_closed or not m.accepted:
+                continue
+            exp = [a for (t, a) in self.expected_mgr.get(m.idx, []) if t == P.MT_FAILED_MESSAGE]
+            got = [P.parse_failed(f.payload) for f in self.step_mgr.get(m.idx, []) if f.msg_type == P.MT_FAILED_MESSAGE]
+            gkeys = [(g["dest_mod_id"], g["header"]["msg_type"], g["header"]["src_mod_id"], g["header"]["dest_mod_id"]) for g in got]
+            ekeys = [(a["sub_id"], a["type"], a["src"], a["dm"]) for a in exp]
+
+            def idm(e, g):
+                return e == g or (e < 0 and P.DYN_MOD_ID_START <= g < P.MAX_MODULES)
+
+            def km(ek, gk):
+                return idm(ek[0], gk[0]) and ek[1] == gk[1] and idm(ek[2], gk[2]) and idm(ek[3], gk[3])
+
+            def possible(gk):
+                # which of several failing modules is hit first inside one delivery depends on the
+                # manager's internal iteration order, which no statement fixes: a notice is legitimate
+                # when it names a module that was unwritable or failed in this round, about a message
+                # that was forwarded in this round and that this module was a recipient of
+                for fm in self.step_failmods:
+                    if not idm(fm["id"], gk[0]):
+                        continue
+                    t = gk[1]
+                    if not (fm["A"] or t in fm["S"] or t == P.MT_ACKNOWLEDGE):
+                        continue
+                    if any(t == mt and idm(ms, gk[2]) and idm(md, gk[3]) for (mt, ms, md) in self.step_msgs):
+                        return True
+                return False
+
+            for a in exp:
+                if not a.get("required"):
+                    continue
+                k = (a["sub_id"], a["type"], a["src"], a["dm"])
+                ok = [g for g, gk in zip(got, gkeys) if km(k, gk) and (a.get("seq") is None or g["header"]["send_time"] == float(a["seq"]))]
+                if not ok:
+                    self.viol("failed/missing-notice", f"conn {m.idx} (subscribed to FAILED_MESSAGE, able) got no FAILED_MESSAGE naming module "
+                              f"{a['sub_id']} (conn {a['sub']}) for message type {a['type']} src {a['src']} dest {a['dm']} "
+                              f"in round {self.rounds}; got {gkeys}; events {self.step_events}")
+            for g, gk in zip(got, gkeys):
+                if g["header"]["msg_type"] in (P.MT_FAILED_MESSAGE, 40, 41, 42, 43, 44, 45):
+                    self.viol("failed/notice-about-notice", f"conn {m.idx} received a FAILED_MESSAGE describing a message of type "
+                              f"{g['header']['msg_type']} (failure notices and log messages must never produce further notices)")
+                if not any(km(ek, gk) for ek in ekeys) and not possible(gk):
+                    self.viol("failed/invented-notice", f"conn {m.idx} received FAILED_MESSAGE {gk} (subscriber id, type, src, dest) but no such "
+                              f"subscriber was unwritable or failing for such a message in round {self.rounds}; expected {sorted(ekeys)}; events {self.step_events}")
+
+    def _check_info(self):
+        for m in self.mods:
+            if m.client_closed or not m.accepted:
+                continue
+            exp = [a for (t, a) in self.expected_mgr.get(m.idx, []) if t == P.MT_CLIENT_INFO]
+            got = [P.parse_client_info(f.payload) for f in self.step_mgr.get(m.idx, []) if f.msg_type == P.MT_CLIENT_INFO]
+            ce, cg = Counter(a["port"] for a in exp), Counter(g["port"] for g in got)
+            copt = Counter(a["port"] for a in exp if a.get("optional"))
+            if (cg - ce) or ((ce - cg) - copt):
+                self.viol("info/count", f"conn {m.idx}: CLIENT_INFO for ports {[g['port'] for g in got]} received, expected for "
+                          f"{[a['port'] for a in exp]} in round {self.rounds}; events {self.step_events}")
+            for g in got:
+                cands = [a for a in exp if a["port"] == g["port"]]
+                mm = self.mods[cands[0]["c"]]
+                ok = False
+                why = None
+                for a in cands:
+                    bad = []
+                    if mm.mod_id >= 0 and g["mod_id"] != mm.mod_id:
+                        bad.append(("mod_id", mm.mod_id, g["mod_id"]))
+                    if g["name"] != a["name"]:
+                        bad.append(("name", a["name"], g["name"]))
+                    if g["is_logger"] != a["logger"]:
+                        bad.append(("is_logger", a["logger"], g["is_logger"]))
+                    if g["is_unique"] != a["unique"]:
+                        bad.append(("is_unique", a["unique"], g["is_unique"]))
+                    if g["pid"] != a["pid"]:
+                        bad.append(("pid", a["pid"], g["pid"]))
+                    if not bad:
+                        ok = True
+                    why = bad
+                if not ok:
+                    self.viol("info/wrong-description", f"CLIENT_INFO for conn {mm.idx} does not describe it as requested: {why}")
+
     @staticmethod
     def _match_logger_acks(got, exp, own_id):
         # every e in exp consumes one frame; an own event may consume two
@@ -609,13 +886,15 @@ class World:
         def go(i, j):
             if j == len(exp):
                 return i == len(got)
-            if i < len(got) and got[i] == exp[j]:
+            if i < len(got) and (got[i] == exp[j] or (exp[j] < 0 and P.DYN_MOD_ID_START <= got[i] < P.MAX_MODULES)):
                 if go(i + 1, j + 1):
                     return True
                 if exp[j] == own_id and i + 1 < len(got) and got[i + 1] == own_id and go(i + 2, j + 1):
                     return True
             return False
 
+        exp = tuple(exp)
+        got = tuple(got)
         return go(0, 0)
 
     # ------------------------------------------------------------------------------------------
@@ -631,6 +910,32 @@ class World:
             n += 1
             if n > max_rounds:
                 raise HarnessError("drain does not terminate")
+
+    def final_checks(self):
+        if "order" in self.oracles:
+            logs = {i: l for i, l in self.received_log.items() if l}
+            for i, log in logs.items():
+                last = {}
+                for seq in log:
+                    snd = self.pubs[seq]["c"]
+                    if snd in last and last[snd] > seq:
+                        self.viol("order/per-sender", f"conn {i} received publish #{seq} of sender conn {snd} after its later publish #{last[snd]}")
+                    last[snd] = max(last.get(snd, 0), seq)
+            keys = sorted(logs)
+            for ai in range(len(keys)):
+                for bi in range(ai + 1, len(keys)):
+                    a, b = logs[keys[ai]], logs[keys[bi]]
+                    common = set(a) & set(b)
+                    if len(common) < 2:
+                        continue
+                    ra = [x for x in a if x in common]
+                    rb = [x for x in b if x in common]
+                    if ra != rb:
+                        self.viol("order/receivers-disagree", f"conns {keys[ai]} and {keys[bi]} received their common messages in different "
+                                  f"relative order: {ra[:12]} vs {rb[:12]}")
+                    senders = {self.pubs[x]["c"] for x in common}
+                    if len(senders) >= 2:
+                        self.shapes.add(("pair-order", min(len(common), 6), min(len(senders), 4)))
 
     def close(self):
         self.sim.close()
